@@ -14,9 +14,9 @@ def csym(row):
     elif kind[0] == 'load':
         ins = f'(ILoad {cterm(kind[1])})'
     elif kind[0] == 'funs':
-        ins = f'(IFunS {cn(name_id(kind[1]))} {cz(kind[2])} {cn(kind[3])})'
+        ins = f'(IFunS {cn(name_id(kind[1]))} {cz(-7 if kind[2] is None else kind[2])} {cn(kind[3])})'
     else:
-        ins = f'(IFun {cn(name_id(kind[1]))} {cz(kind[2])} {cn(kind[3])} false)'
+        ins = f'(IFun {cn(name_id(kind[1]))} {cz(-7 if kind[2] is None else kind[2])} {cn(kind[3])} false)'
     return f"(Sym {cn(sid)} {ins} {cl([cn(a) for a in args], 'nat')})"
 
 
@@ -49,6 +49,16 @@ class C02(core.Prop):
         src = {'gid': 0, 'name': 'src', 'stateful': False, 'szin': 0, 'szout': 1, 'inputs': []}
         f = lambda g, ins, o=1: {'gid': g, 'name': f'f{g}', 'stateful': False, 'szin': len(ins), 'szout': o, 'inputs': ins}
         return [
+            # a hyper-parameter explicitly set to None (overriding a non-None default) on stateful actors, also under the
+            # scheduler that pickles the instructions
+            {'nodes': [{'gid': 20_000, 'name': 'src', 'stateful': False, 'szin': 0, 'szout': 1, 'inputs': []},
+                       {'gid': 0, 'name': 'pre', 'stateful': False, 'szin': 1, 'szout': 2, 'inputs': [[0, 0]]},
+                       {'gid': 1, 'name': 's1', 'stateful': True, 'szin': 1, 'szout': 1, 'hp': None, 'inputs': [[1, 0]]},
+                       {'gid': 2, 'name': 's2', 'stateful': True, 'szin': 1, 'szout': 1, 'hp': None, 'inputs': [[1, 1]]},
+                       {'gid': 3, 'name': 'sink', 'stateful': False, 'szin': 2, 'szout': 1, 'inputs': [[2, 0], [3, 0]]}],
+             'tail': 4, 'conn': [1, 2, 3, 4], 'persistent': [2, 3],
+             'previous': {'2': ['state', 's1', None, None, c01mod.ATOM_P, c01mod.ATOM_Q], '3': ['state', 's2', None, None, c01mod.ATOM_P, c01mod.ATOM_Q]},
+             'schedulers': ['synchronous', 'threads', 'processes']},
             # fan-out at the head (known finding: construction crash)
             {'nodes': [src, f(1, [[0, 0]]), f(2, [[0, 0]]), {**f(3, [[1, 0], [2, 0]]), 'name': 'sink'}], 'tail': 3, 'persistent': None, 'previous': {}},
             # shorter branch evaluated first (known finding: pop before push)
